@@ -12,15 +12,16 @@ cd $WT
 git checkout -q -- src 2>/dev/null
 git checkout -q -- . ; git clean -fdq -e target -e deliver
 # copy demo files into place
-DEMO_CMD=$(cat $D/demo_cmd.txt | grep -v '^#' | grep -v '^$' | head -1)
+DEMO_CMD="bash $D/demo_cmd.txt"
+verdict() { if grep -qE "test result: FAILED|panicked at|error: test failed" $1; then echo "demo: FAILS"; else echo "demo: passes"; fi; }
 for f in $D/*.rs; do [ -f "$f" ] && { mkdir -p tests; cp $f tests/; }; done
 echo "== demo on original: $DEMO_CMD"
-( eval "$DEMO_CMD" ) > $OUT/demo_orig.log 2>&1; echo "exit=$?" | tee -a $OUT/demo_orig.log
+( eval "$DEMO_CMD" ) > $OUT/demo_orig.log 2>&1; echo "exit=$? $(verdict $OUT/demo_orig.log)" | tee -a $OUT/demo_orig.log
 git apply $D/patch.diff || { echo "PATCH DOES NOT APPLY"; exit 3; }
 echo "== tests with patch"
 cargo test --workspace --no-fail-fast --offline 2>&1 | grep -E "^test result" | tee $OUT/tests_patched.log
 echo "== demo with patch"
-( eval "$DEMO_CMD" ) > $OUT/demo_patched.log 2>&1; echo "exit=$?" | tee -a $OUT/demo_patched.log
+( eval "$DEMO_CMD" ) > $OUT/demo_patched.log 2>&1; echo "exit=$? $(verdict $OUT/demo_patched.log)" | tee -a $OUT/demo_patched.log
 git checkout -q -- src
 cd /verif
 unset CARGO_TARGET_DIR
